@@ -131,3 +131,72 @@ Corollary skc_z_shifted_rejected H K le c ms P k : 0 < kq K -> k <> 0 -> 0 <= s_
 Proof.
   intros Hq Hk Hz A. apply skc_range_rules in A. cbn [s_z] in A. destruct A as (A & _). nia.
 Qed.
+
+(* ---- an opening binds the randomizer: unconditional (no hash involved) --------------------------------------- *)
+Lemma table_walk_range tl b a p q : 1 < p -> 0 <= a < q -> bits q <= tl -> table_walk tl b a p = powm b a p.
+Proof.
+  intros Hp Ha Hb. unfold table_walk. destruct (Z.eqb_spec a 0) as [->|N].
+  - cbn [powm]. symmetry. apply Z.mod_1_l. lia.
+  - assert (bits a <= bits q) by (apply bits_mono; lia).
+    destruct (Z.leb_spec (bits a) tl); [reflexivity|lia].
+Qed.
+
+Lemma commit_loop_factor K : 1 < kp K -> forall ms gs idx acc v, commit_loop K idx gs ms acc = Some v -> 0 <= acc < kp K ->
+  exists G, forall acc', 0 <= acc' < kp K -> commit_loop K idx gs ms acc' = Some ((acc' * G) mod kp K).
+Proof.
+  intros Hp. induction ms as [|m ms IH]; intros gs idx acc v E Ha.
+  - exists 1. intros acc' Ha'. rewrite Z.mul_1_r. rewrite Z.mod_small by exact Ha'. destruct gs; reflexivity.
+  - destruct gs as [|gi gs]; [discriminate|]. cbn [commit_loop] in *. destruct (gen_pow K idx gi m) as [t|]; [|discriminate].
+    destruct (IH gs (idx + 1) ((acc * t) mod kp K) v E ltac:(apply Z.mod_pos_bound; lia)) as [G' HG].
+    exists ((t * G') mod kp K). intros acc' Ha'.
+    rewrite (HG ((acc' * t) mod kp K)) by (apply Z.mod_pos_bound; lia). f_equal.
+    rewrite Zmult_mod_idemp_l, Zmult_mod_idemp_r. f_equal. ring.
+Qed.
+
+Lemma unit_of_nonzero p G : Znumtheory.prime p -> G mod p <> 0 -> exists Gi, (G * Gi) mod p = 1.
+Proof.
+  intros Pp N. assert (Hp : 1 < p) by (destruct Pp; lia).
+  assert (R : Znumtheory.rel_prime p G).
+  { apply Znumtheory.prime_rel_prime; [assumption|]. intros D. apply N. apply Z.mod_divide; [lia|assumption]. }
+  destruct (Znumtheory.rel_prime_bezout _ _ R) as [u v E].
+  exists v. replace (G * v) with (1 + (- u) * p) by lia. rewrite Z.mod_add by lia. apply Z.mod_1_l. lia.
+Qed.
+
+Theorem ped_randomizer_bound K c r r' ms :
+  Znumtheory.prime (kp K) -> Znumtheory.prime (kq K) -> powm (kh K) (kq K) (kp K) = 1 -> kh K mod kp K <> 1 ->
+  bits (kq K) <= TMCG_MAX_FPOWM_T ->
+  ped_verify K c r ms = Accept -> ped_verify K c r' ms = Accept -> r = r'.
+Proof.
+  intros Pp Pq Hh Hh1 Hb A B. assert (Hp : 1 < kp K) by (destruct Pp; lia).
+  apply ped_accept_iff in A, B. destruct A as (Rr & Rc & A). destruct B as (Rr' & _ & B).
+  assert (F : forall x, 0 <= x < kq K -> fpowm (kh K) (ktl K) (kh K) x (kp K) = Some (powm (kh K) x (kp K))).
+  { intros x Hx. unfold fpowm. rewrite Z.eqb_refl. cbn [negb]. rewrite Z.abs_eq by lia.
+    assert (bits x <= bits (kq K)) by (apply bits_mono; lia).
+    destruct (Z.ltb_spec TMCG_MAX_FPOWM_T (bits x)); [lia|]. destruct (Z.ltb_spec x 0); [lia|].
+    f_equal. apply (table_walk_range _ _ _ _ (kq K)); try assumption. unfold ktl. lia. }
+  unfold recommit in A, B. rewrite F in A, B by assumption.
+  assert (R0 : 0 <= powm (kh K) r (kp K) < kp K) by (apply powm_range; lia).
+  assert (R0' : 0 <= powm (kh K) r' (kp K) < kp K) by (apply powm_range; lia).
+  destruct (commit_loop_factor K Hp ms (kg K) 0 _ _ A R0) as [G HG].
+  rewrite (HG _ R0) in A. rewrite (HG _ R0') in B. injection A as A. injection B as B.
+  assert (NZ : G mod kp K <> 0).
+  { intros Z0. rewrite <- Zmult_mod_idemp_r, Z0, Z.mul_0_r, Z.mod_0_l in A by lia. lia. }
+  destruct (unit_of_nonzero (kp K) G Pp NZ) as [Gi HGi].
+  assert (E : (powm (kh K) r (kp K) * G) mod kp K = (powm (kh K) r' (kp K) * G) mod kp K) by congruence.
+  apply (recommit_inj (kp K) (kq K) (kh K) Hp Pq Hh Hh1 r r' G Gi) in E; try lia; try assumption.
+  rewrite !Z.mod_small in E by lia. exact E.
+Qed.
+
+(* hence the responses z and z_Delta of the shuffle of known content are bound as exact values (not only modulo q) *)
+Corollary skc_z_bound H K le c ms P z' :
+  Znumtheory.prime (kp K) -> Znumtheory.prime (kq K) -> powm (kh K) (kq K) (kp K) = 1 -> kh K mod kp K <> 1 ->
+  bits (kq K) <= TMCG_MAX_FPOWM_T ->
+  skc_verify H K le c ms P = Accept ->
+  skc_verify H K le c ms (mk_skc (s_cd P) (s_cD P) (s_ca P) (s_f P) z' (s_fD P) (s_zD P)) = Accept -> z' = s_z P.
+Proof.
+  intros Pp Pq Hh Hh1 Hb A B. apply skc_accept_iff in A, B. cbv zeta in A, B. cbn [s_cd s_cD s_ca s_f s_z s_fD s_zD] in B.
+  destruct A as (_ & _ & _ & _ & _ & _ & _ & _ & _ & ce & cae & einv & E1 & V1 & _).
+  destruct B as (_ & _ & _ & _ & _ & _ & _ & _ & _ & ce' & cae' & einv' & E1' & V1' & _).
+  unfold skc_e in *. cbn [s_cd s_cD s_ca] in *. rewrite E1 in E1'. injection E1' as <-.
+  symmetry. eapply ped_randomizer_bound; eassumption.
+Qed.
